@@ -409,6 +409,11 @@ class Gen2:
         if r.random() < risky:
             ok = list(scope)                  # may read an indeterminate object: the C semantics says `ub`
         self.g.vars = ok
+        if not ok:
+            # nothing to read: a plain constant (constant-only operator trees are mostly undefined or folded natively)
+            v = r.choice([0, 1, 2, 3, 7, 100, 255, 65535, 1000000])
+            src = ('K', v, str(v), True, '')
+            return src, parse(src, self.vtys)
         src = self.g.expr(r.randrange(0, 3) if depth is None else depth)
         return src, parse(src, self.vtys)
 
@@ -679,7 +684,7 @@ def gen2(seed, charsigned, n, nargs=4, prefix='g', level='C'):
     rng = random.Random(((int(seed) << 1) | (1 if charsigned else 0)) * 3 + 2)
     res = []
     for idx in range(n):
-        np_ = rng.randrange(0, 4)
+        np_ = rng.choice([0, 1, 1, 2, 2, 3])
         ptys = [rng.choice(TYS) for _ in range(np_)]
         ret = rng.choice(TYS)
         g = Gen2(rng, ptys, ret, level)
